@@ -119,7 +119,7 @@ def check_frame_reader(ctx, rule, P, fn_key, buf_desc, strict=True):
         return
     # the bound L <= |P| - n holds where the slice is taken: some dominating comparison is exactly  n + L - |P| <= 0
     target = B._lin(("sub", ("add", n, L), blen)) if L is not None else None
-    lits = G.path_literals(ev, mbb, P)
+    lits = G.path_literals(ev, mbb, P, checks_only=True)
     bound = False
     shown = []
     for atom, pol in lits:
